@@ -303,6 +303,24 @@ def apply_fault(frame, f, dims, st):
                 return False
             frame.rows[i][k] = others[f.get("item", 0) % len(others)]
             return True
+    if kind == "append_unknown_row":
+        # a surplus row: every label taken from an existing row, one of them replaced by an unknown item; value blank or a number
+        dimcols = [k for k, c in enumerate(frame.cols) if c["role"] == "dim" and c.get("ident") == "name"]
+        if nrows == 0 or not dimcols:
+            return False
+        row = list(frame.rows[f["row"] % nrows])
+        k = dimcols[f.get("col", 0) % len(dimcols)]
+        d = dl[frame.cols[k]["dim"]]
+        dt = None if d.dtype is None else d.dtype.__name__
+        tok = UNKNOWN[dt]
+        if dt is None and all(isinstance(x, int) for x in d.items):
+            tok = 9999
+        row[k] = tok
+        for j, c in enumerate(frame.cols):
+            if c["role"] in ("value", "wide"):
+                row[j] = None if f.get("item", 0) % 2 == 0 else 123456.5
+        frame.rows.insert(f.get("pos", 0) % (nrows + 1), row)
+        return True
     if kind == "drop_dim_col":
         dimcols = [k for k, c in enumerate(frame.cols) if c["role"] == "dim"]
         if not dimcols:
@@ -327,7 +345,7 @@ def apply_fault(frame, f, dims, st):
     return False
 
 
-RECORD_FAULTS = ["drop_row", "dup_row_same", "dup_row_other", "relabel_unknown", "relabel_known", "blank_value", "blank_label"]
+RECORD_FAULTS = ["drop_row", "dup_row_same", "dup_row_other", "relabel_unknown", "relabel_known", "blank_value", "blank_label", "append_unknown_row"]
 COLUMN_FAULTS = ["drop_dim_col", "add_junk_col", "rename_wide_col"]
 
 
